@@ -117,7 +117,7 @@ def run_split(prop, tier, seed, only, cfgs, meta, what):
     return 1 if violations else 0
 
 
-def kdiff_inst(tname, kernel, la, lb, rect, fp, bp, ka=2, kb=1, nlet=4, timeout=600, mem_gb=8, ob="O2", extra=None, tag=""):
+def kdiff_inst(tname, kernel, la, lb, rect, fp, bp, ka=2, kb=1, nlet=4, timeout=600, mem_gb=4, ob="O2", extra=None, tag=""):
     """one Hirschberg step of the profile kernels == the sequence-sequence step, scaled (harness/c07_kdiff.c)"""
     from vk.core import Inst
     bt, ty = split.TYPES[tname]
